@@ -73,29 +73,32 @@ var c17Hostile = []string{"..", ".", "", "a/b", "d/inner", "d/x", "d/new", "x/y"
 var c17Targets = []string{c17Outside + "/target", c17Outside + "/dir", c17Outside + "/newfile", c17Outside + "/dir/newfile",
 	"../sib", "../new7", "../../outside/target", "../../outside/dir", "../../outside/new8", "d", "a", ".", "..", "", c17Out, c17Out + "/d", "x", "loop",
 	"/nonexistent-verif-c17/x", "a/b", c17Outside + "/target/", c17Outside + "/dir/", "//SB//q/p/outside/./dir/../target",
-	"/SB/q/p/w/lnk/a", "d/", "./d/../a", "unknown", "../out/a"}
+	"/SB/q/p/w/lnk/a", "d/", "./d/../a", "unknown", "../out/a", c17Out + "2", c17Out + "2/t", "../out2/t", "../out2"}
 
 func longName(n int) string { return string(bytes.Repeat([]byte("n"), n)) }
 
 type c17gen struct {
 	r       *RNG
 	c       *Ctx
-	hostile int
-	links   int
-	nodes   int
+	p       int // hostility, percent per decision
+	uniq    int
 }
 
+// entry names: mostly fresh plain names when hostility is low, so that the walk gets deep before
+// it meets the hostile entry
 func (g *c17gen) name() []byte {
 	r := g.r
 	switch {
-	case r.Chance(80):
-		return []byte(pick(r, c17Benign))
-	case r.Chance(6):
-		g.hostile++
-		return []byte(longName(pick(r, []int{255, 256, 300})))
-	default:
-		g.hostile++
+	case r.Chance(g.p):
+		if r.Chance(8) {
+			return []byte(longName(pick(r, []int{255, 256, 300})))
+		}
 		return []byte(pick(r, c17Hostile))
+	case r.Chance(2 * g.p):
+		return []byte(pick(r, c17Benign)) // collides with siblings / pre-existing entries
+	default:
+		g.uniq++
+		return []byte("u" + string(rune('a'+g.uniq%26)) + string(rune('0'+(g.uniq/26)%10)))
 	}
 }
 
@@ -121,39 +124,45 @@ func (g *c17gen) leafFile() Val {
 
 func (g *c17gen) tree(depth int) Val {
 	r := g.r
-	g.nodes++
-	k := r.Intn(100)
 	switch {
-	case k < 40:
-		return g.leafFile()
-	case k < 62 && depth < 3:
-		return g.dir(depth)
-	case k < 84:
-		g.links++
+	case r.Chance(2 * g.p):
 		t := pick(r, c17Targets)
 		if r.Chance(3) {
 			t = string(bytes.Repeat([]byte("t"), 5000))
 		}
 		return linkV(t)
-	case k < 89:
+	case r.Chance(g.p / 2):
 		g.c.Count("node:missing")
 		return missV(r.Bytes(4))
-	case k < 93:
+	case r.Chance(g.p / 2):
 		g.c.Count("node:bad")
 		return badV(r.Intn(5), r.Bytes(4))
-	case k < 97:
+	case r.Chance(g.p / 2):
 		g.c.Count("node:file-missing-chunk")
-		d := append(g.fileData(), []byte("0123456789")...)
 		chunks := 2 + r.Intn(2)
+		d := r.Bytes(6*chunks + r.Intn(6))
+		for i := range d {
+			d[i] = 'a' + d[i]%26
+		}
 		return fileErrV(d, 3+r.Intn(2), chunks, r.Intn(chunks))
-	default:
+	}
+	k := r.Intn(100)
+	switch {
+	case k < 55 || depth >= 3:
 		return g.leafFile()
+	case k < 88:
+		return g.dir(depth)
+	default:
+		return linkV(pick(r, []string{"ua0", "../ub0", ".", "uc0/ud0", "nothing"}))
 	}
 }
 
 func (g *c17gen) dir(depth int) Val {
 	r := g.r
 	n := r.Intn(6)
+	if depth == 0 {
+		n = 2 + r.Intn(6)
+	}
 	var ents []dent
 	emptyName := false
 	for i := 0; i < n; i++ {
@@ -184,6 +193,8 @@ func c17Skeleton() VL {
 		fsDir("q", "p", "outside", "dir"), fsFile("KEEP", "q", "p", "outside", "dir", "keep"),
 		fsFile("sibling", "q", "p", "w", "sib"), fsFile("plain", "q", "p", "w", "afile"),
 		fsLink("out", "q", "p", "w", "lnk"), fsLink(c17Out, "q", "p", "w", "alnk"),
+		// a sibling whose path has the output directory's path as a string prefix
+		fsDir("q", "p", "w", "out2"), fsFile("S2", "q", "p", "w", "out2", "t"),
 	}
 }
 
@@ -269,6 +280,10 @@ func c17Features(v Val, f map[string]int) {
 func c17Emit(c *Ctx, label string, fs VL, outdir, pathflag string, buildroots VL, opts Val, preLinks int) {
 	in := extractInput(fs, c17Cwd(), []byte(outdir), []byte(pathflag), buildroots, opts)
 	obs := runExtractCase(c, in)
+	if vt(vnth(obs, 0)) == "generator-collision" {
+		c.Count("skipped:missing-block-present-elsewhere")
+		return
+	}
 	f := map[string]int{}
 	for _, r := range buildroots {
 		if vt(vnth(r, 0)) == "n" {
@@ -286,7 +301,56 @@ func c17Emit(c *Ctx, label string, fs VL, outdir, pathflag string, buildroots VL
 	}
 	c.Count("kind:" + label)
 	c.Count("status:" + vt(vnth(vnth(obs, 0), 0)))
+	switch n := fsChanges(fs, vnth(obs, 2)); {
+	case n == 0:
+		c.Count("fs-changes:0")
+	case n <= 2:
+		c.Count("fs-changes:1-2")
+	case n <= 6:
+		c.Count("fs-changes:3-6")
+	default:
+		c.Count("fs-changes:7+")
+	}
 	c.Emit("extract", in, obs, len(f) > 0)
+}
+
+// number of paths whose binding differs between two fs values
+func fsChanges(before, after Val) int {
+	m := map[string]string{}
+	for _, e := range vl(before) {
+		m[valString(vnth(e, 0))] = valString(vnth(e, 1))
+	}
+	n := 0
+	seen := map[string]bool{}
+	for _, e := range vl(after) {
+		k := valString(vnth(e, 0))
+		seen[k] = true
+		if m[k] != valString(vnth(e, 1)) {
+			n++
+		}
+	}
+	for k := range m {
+		if !seen[k] {
+			n++
+		}
+	}
+	return n
+}
+
+// unshard turns every hand-built sharded directory of a build tree into a basic one
+func unshard(v Val) Val {
+	if vt(vnth(v, 0)) != "d" {
+		return v
+	}
+	ents := VL{}
+	for _, e := range vl(vnth(v, 1)) {
+		ents = append(ents, VL{vnth(e, 0), unshard(vnth(e, 1)), vnth(e, 2)})
+	}
+	form := vn(vnth(v, 2))
+	if form == 1 || form == 2 || form == 4 {
+		form = 0
+	}
+	return VL{VT("d"), ents, VN(form)}
 }
 
 func rootN(t Val) Val { return VL{VT("n"), t} }
@@ -335,6 +399,8 @@ func init() {
 			{"symlink-twice", with(), VL{rootN(dirV(0, de("x", linkV(tgt)), de("x", linkV("a"))))}, 0},
 			{"symlink-to-self-dir-then-entries", with(), VL{rootN(dirV(0, de("s", linkV(".")), de("s", dirV(0, de("a", f1("A"))))))}, 0},
 			{"symlink-dotdot-then-dir", with(), VL{rootN(dirV(0, de("s", linkV("..")), de("s", dirV(0, de("sib", f1("PWNED"))))))}, 0},
+			{"symlink-to-prefix-sibling-then-file", with(), VL{rootN(dirV(0, de("x", linkV(c17Out+"2/t")), de("x", f1("PWNED"))))}, 0},
+			{"symlink-to-prefix-sibling-dir", with(), VL{rootN(dirV(0, de("d", linkV(c17Out+"2")), de("d", dirV(0, de("t", f1("PWNED"))))))}, 0},
 			{"symlink-chain-then-file", with(), VL{rootN(dirV(0, de("y", linkV(tgt)), de("x", linkV("y")), de("x", f1("PWNED"))))}, 0},
 			{"missing-blocks", with(), VL{rootN(dirV(0, de("a", missV([]byte("1"))), de("b", f1("B")), de("c", fileErrV([]byte("0123456789"), 3, 2, 1))))}, 0},
 			{"missing-root", with(), VL{rootN(dirV(0, de("a", f1("A")))), rootN(missV([]byte("2")))}, 0},
@@ -368,14 +434,47 @@ func init() {
 			c17Emit(c, "directed:path-flag", with(), pick(r, []string{c17Out, "out"}), pf, ptree, optFile, 0)
 		}
 
+		// ---- thorough: every ordered pair of entries over a small alphabet of (name, node) in one
+		// directory, into an empty and two pre-populated output directories
+		if c.Thorough {
+			names := []string{"x", "d", "..", "a/b", "", c17Outside + "/target", "../sib", "unknown"}
+			nodes := []func() Val{
+				func() Val { return f1("F") },
+				func() Val { return linkV(tgt) },
+				func() Val { return linkV(c17Outside + "/dir") },
+				func() Val { return linkV("../../outside/new9") },
+				func() Val { return dirV(0, de("keep", f1("K"))) },
+			}
+			pres := []VL{with(), with(fsLink(tgt, outp("x")...), fsLink(c17Outside+"/dir", outp("d")...)),
+				with(fsDir(outp("d")...), fsFile("old", outp("x")...), fsLink("..", outp("a")...))}
+			for _, n1 := range names {
+				for _, n2 := range names {
+					for i1 := range nodes {
+						for i2 := range nodes {
+							for pi, pre := range pres {
+								e1 := dent{[]byte(n1), nodes[i1](), true}
+								e2 := dent{[]byte(n2), nodes[i2](), true}
+								pl := 0
+								if pi > 0 {
+									pl = 1
+								}
+								c17Emit(c, "exhaustive-pairs", pre, pick(r, []string{c17Out, "out"}), "", VL{rootN(dirV(0, e1, e2))}, optFile, pl)
+							}
+						}
+					}
+				}
+			}
+		}
+
 		// ---- random hostile DAGs
 		n := 110 * c.Scale
 		for i := 0; i < n; i++ {
 			g := &c17gen{r: r.Fork(), c: c}
 			gr := g.r
+			g.p = pick(gr, []int{2, 4, 8, 8, 15, 30})
 			pre := 0
 			fs := append(VL{}, sk...)
-			pct := pick(gr, []int{0, 0, 15, 40, 70})
+			pct := pick(gr, []int{0, 0, 10, 25, 60})
 			oddOut := gr.Chance(8)
 			fs = append(fs, c17Populate(gr, pct, &pre)...)
 			od := pick(gr, c17Outdirs)
@@ -419,7 +518,15 @@ func init() {
 			}
 			pf := ""
 			if gr.Chance(8) {
-				pf = pick(gr, []string{"a", "d", "d/a", "x", "b/c", "nosuch", "ld/keep", "in"})
+				pf = pick(gr, []string{"a", "d", "d/a", "x", "b/c", "nosuch", "ld/keep", "in", "ua0", "ub0/uc0"})
+				// LookupByString on a sharded directory goes by the hash of the name; the hand-built
+				// shards here do not place entries by hash, so --path is exercised on basic
+				// directories only (library-built shards: C18)
+				for k := range roots {
+					if vt(vnth(roots[k], 0)) == "n" {
+						roots[k] = rootN(unshard(vnth(roots[k], 1)))
+					}
+				}
 			}
 			// (a CARv2 on a stdin pipe fails before anything is extracted: C18 looks at that)
 			useStdin := gr.Chance(20)
